@@ -540,6 +540,8 @@ fn run_helpers() {
                 c.points_since_helper += 1;
                 if c.points_since_helper < c.helper_gap {
                     *c.probes.entry("helper_thread_passed_over").or_insert(0) += 1;
+                    // The extra root poll this causes is not charged to the run's poll budget.
+                    c.polls = c.polls.saturating_sub(1);
                     if let Some(w) = &c.root_waker {
                         w.wake_by_ref();
                     }
